@@ -5,6 +5,7 @@
   a clean end of the request stream.
 -/
 import ConnectModel.HandlerSide
+import ConnectProofs.Lemmas.Utf8
 import ConnectProofs.Lemmas.Envelope
 import ConnectProofs.C01
 import ConnectProofs.C04
@@ -376,5 +377,21 @@ theorem single_request_reports_late_failure (v : Bytes) (c : Nat) :
 /-- **History, F18**: the pinned tree served all three -/
 theorem single_request_pinned_served_malformed (v w : Bytes) (c : Nat) :
     singleRequestPinned ([v, w], .eof) = .inl v ∧ singleRequestPinned ([v], .fail c) = .inl v := ⟨rfl, rfl⟩
+
+/-! ### the text of an error never costs the error its code (fix F23) -/
+
+/-- **error_message_always_serializable**: whatever bytes an error's message holds - the decoder's
+    complaint quoting an undecodable payload, a panic value printed into it - what is handed to
+    the status / error-JSON marshaller is valid UTF-8, so marshalling cannot fail on it and the
+    peer gets the error with its code. -/
+theorem error_message_always_serializable (m : Bytes) : marshalAcceptsMessage (wireErrorMessage m) = true :=
+  toValidUTF8_valid m
+
+/-- … and a message that is valid UTF-8 (C02's domain) travels byte for byte -/
+theorem valid_message_unchanged (m : Bytes) (h : utf8Valid m = true) : wireErrorMessage m = m :=
+  toValidUTF8_of_valid m h
+
+/-- **History, F23**: the message went to the marshaller as it was - and `"\xff"` is refused -/
+theorem raw_message_refused_on_pinned : marshalAcceptsMessage [0xff] = false := by decide
 
 end ConnectModel.C07
